@@ -123,13 +123,15 @@ impl Item {
 }
 pub open spec fn bitem(i: Item) -> BItemV { BItemV { ks: i.keyspace.id, key: i.key@, value: i.value@, vt: i.value_type } }
 pub open spec fn bitems(v: Seq<Item>) -> Seq<BItemV> { Seq::new(v.len(), |i: int| bitem(v[i])) }
+pub open spec fn dur_code(d: Option<PersistMode>) -> int { match d { None => 0, Some(PersistMode::Buffer) => 1, Some(PersistMode::SyncData) => 2, Some(PersistMode::SyncAll) => 3 } }
 pub struct OwnedWriteBatch { pub data: Vec<Item>, pub durability: Option<PersistMode> }
 impl OwnedWriteBatch {
     #[verifier::external_body] pub fn new(db: Database) -> (r: OwnedWriteBatch) ensures r.data@.len() == 0, r.durability is None { unimplemented!() }
     pub fn durability(self, mode: Option<PersistMode>) -> (r: OwnedWriteBatch) ensures r.data == self.data, r.durability == mode { OwnedWriteBatch { data: self.data, durability: mode } }
     #[verifier::external_body]
     pub fn commit(self, Tracked(w): Tracked<&mut RWorld>) -> (r: Result<(), Error>)
-        ensures final(w).reads == old(w).reads, r is Ok ==> final(w).committed == old(w).committed.push(bitems(self.data@)), r is Err ==> final(w).committed == old(w).committed,
+        ensures final(w).reads == old(w).reads, r is Ok ==> final(w).committed == old(w).committed.push(bitems(self.data@)) && final(w).committed_with == old(w).committed_with.push(dur_code(self.durability)),
+            r is Err ==> final(w).committed == old(w).committed && final(w).committed_with == old(w).committed_with,
     { unimplemented!() }
 }
 /// C08: of the local versions of one keyspace (newest first within a key), exactly the FIRST of each key is committed
@@ -215,14 +217,16 @@ pub open spec fn tx_view(t: &BaseTransaction, ks: u64, key: Seq<u8>) -> Option<S
         tx_reads(*old(w), *final(w), self.nonce.instant),
 //@end
 
-//@extract src/tx/write_tx.rs :: BaseTransaction :: commit world desugar_for=0 desugar_for_plain=1 props=C08+C07
+//@extract src/tx/write_tx.rs :: BaseTransaction :: commit world desugar_for=0 desugar_for_plain=1 props=C08+C07+C03+C09
 //@contract
     ensures
         final(w).reads == old(w).reads,
         self.memtables.content@.len() == 0 ==> r is Ok && final(w).committed == old(w).committed, // [C08:empty-write-set-commits-nothing]
         // exactly the final write per key, of every keyspace written, in ONE batch
-        self.memtables.content@.len() > 0 && r is Ok ==> final(w).committed == old(w).committed.push(all_firsts(self.memtables.content@, self.memtables.content@.len() as int)), // [C08:commit-applies-exactly-the-final-write-per-key-in-one-batch] [C07:commit-applies-exactly-the-final-write-per-key-in-one-batch]
+        self.memtables.content@.len() > 0 && r is Ok ==> final(w).committed == old(w).committed.push(all_firsts(self.memtables.content@, self.memtables.content@.len() as int)), // [C08:commit-applies-exactly-the-final-write-per-key-in-one-batch] [C07:commit-applies-exactly-the-final-write-per-key-in-one-batch] [C03:commit-applies-exactly-the-final-write-per-key-in-one-batch]
         r is Err ==> final(w).committed == old(w).committed, // [C08:failed-commit-applies-nothing]
+        // the batch is committed with the durability level the transaction was given (C09: a transaction committed with SyncData / SyncAll is synced)
+        self.memtables.content@.len() > 0 && r is Ok ==> final(w).committed_with == old(w).committed_with.push(dur_code(self.durability)), // [C09:transaction-commits-with-the-durability-it-was-given] [C02:transaction-commits-with-the-durability-it-was-given]
 //@proof before let mut batch
         let ghost content = self.memtables.content@;
 //@loop 0
